@@ -187,7 +187,7 @@ def coq_fs(fs):
 def in_header(length, op, unique, nodeid, uid, gid, pid):
     return struct.pack('<IIQQIIII', length & 0xffffffff, op & 0xffffffff, unique, nodeid, uid, gid, pid, 0)
 
-def gen_wf(rng, op):
+def gen_wf(rng, op, kind=None):
     """a well-formed request of opcode op: dict with structured form + bytes"""
     name, sname, tail, kinds = OPS[op]
     used = set()
@@ -247,7 +247,7 @@ def gen_wf(rng, op):
     if sname: body = enc_struct(sname, fields, COMPAT.get(sname))
     total = 40 + len(body) + len(tb)
     q['bytes'] = in_header(total, op, hdr['unique'], hdr['nodeid'], hdr['uid'], hdr['gid'], hdr['pid']) + body + tb
-    kind = rng.choice(kinds) if rng.random() < 0.75 else kinds[0]
+    if kind is None: kind = rng.choice(kinds) if rng.random() < 0.75 else kinds[0]
     q['fs'] = gen_fs(rng, kind, op, fields)
     if q['fs'][0] == 'dirents' and q['fs'][1] and rng.random() < 0.8:
         # requested size around an entry boundary of this listing (every residue mod 8 on both sides)
@@ -339,6 +339,57 @@ def gen_cases(rng, n, opcodes=None, frac_malformed=0.25, **kw):
             cases.append(make_case(rng, i, rb, q['fs'], None, **kw))
         else:
             cases.append(make_case(rng, i, q['bytes'], q['fs'], q, **kw))
+    return cases
+
+def gen_config_cases(rng, start, transports=('fusedev', 'virtio', 'chan')):
+    """Deterministic block: every field of the server's configuration that the model reads (the protocol minor
+    negotiated by an earlier INIT, the id remap, the virtiofs cache-request handler) crossed with the requests and
+    filesystem answers on which it matters.  Random pairing almost never produces these combinations."""
+    cases = []
+    def add(q, **kw):
+        cases.append(make_case(rng, start + len(cases), q['bytes'], q['fs'], q, cap=1 << 17, **kw))
+    trs = list(transports)
+    k = 0
+    for minor in (0, 3, 4, 5, 33):
+        for kind in ('entry0', 'entry', 'err'):
+            add(gen_wf(rng, 1, kind), minor=minor, remap=(0, 0), transport=trs[k % len(trs)]); k += 1
+    for remap in ((0, 0), (1000, 2000), ((1 << 32) - 5, (1 << 32) - 1), 'fail'):
+        for op in (3, 10, 2, 9, 35, 42, 26):
+            add(gen_wf(rng, op), remap=remap, minor=33, transport=trs[k % len(trs)]); k += 1
+    for vu in (False, True):
+        for op in (48, 49):
+            for kind in ('unit', 'err'):
+                add(gen_wf(rng, op, kind), vu=vu, remap=(0, 0), minor=33, transport=trs[k % len(trs)]); k += 1
+    # INIT after an earlier INIT negotiated an old minor
+    for minor in (3, 4, 5):
+        add(gen_wf(rng, 26), minor=minor, remap=(0, 0), transport=trs[k % len(trs)]); k += 1
+    return cases
+
+def gen_badname_cases(rng, start, transports=('fusedev', 'virtio')):
+    """Deterministic block: every opcode that carries NUL-terminated strings x every way the strings can be wrong
+    (no NUL at all, request ends right after the fixed part, second string unterminated, empty strings, a lone NUL,
+    an over-long name), on each transport.  The handlers decode names one by one, each with its own error path."""
+    cases = []
+    k = 0
+    for op, (name, sname, tail, kinds) in sorted(OPS.items()):
+        if tail not in ('name', 'two', 'namevalue'): continue
+        q = gen_wf(rng, op)
+        b = q['bytes']
+        tl = len(q['name1']) + 1 + (len(q['name2']) + 1 if tail == 'two' else 0) + (len(q['payload']) if tail == 'namevalue' else 0)
+        fixed = b[:len(b) - tl]; t = b[len(b) - tl:]
+        variants = [t.replace(b'\0', b'x'),                     # no NUL anywhere
+                    b'',                                         # nothing after the fixed part
+                    b'\0',                                       # a lone NUL (empty name)
+                    b'abc',                                      # short unterminated
+                    q['name1'] + b'\0' + b'zz',                  # first string fine, then unterminated bytes
+                    b'\0' + t,                                   # empty first string, rest shifted
+                    (b'n' * 4097) + b'\0' + (b'm\0' if tail == 'two' else b'')]   # over-long name
+        for v in variants:
+            body = fixed[40:] + v
+            h = q['hdr']
+            req = in_header(40 + len(body), op, h['unique'], h['nodeid'], h['uid'], h['gid'], h['pid']) + body
+            cases.append(make_case(rng, start + len(cases), req, q['fs'], None, cap=1 << 17, remap=(0, 0), minor=33,
+                                   transport=transports[k % len(transports)])); k += 1
     return cases
 
 def case_line(c):
